@@ -200,12 +200,24 @@ def _run(ix, R):
         sup = [e for e in fl.of('call') if unparse(e.node.func) == 'super().initialize_chemistry']
         stack = [e for e in vs if 'vstack' in fmt(fl, e.value)]
         lic = lambda x: x.early and g is not None and x.node is g.node      # only the validity check may stand in the way
+        from sa.helpers import pos_args
+        sup_args, sup_kw = pos_args(fl, sup[0]) if len(sup) == 1 else ([], {})
+        if sup_kw:
+            # keyword arguments of the base-class call: by name
+            if set(sup_kw) <= {'nlayers', 'temperature_profile', 'pressure_profile', 'altitude_profile'} and \
+                    len(sup_args) + len(sup_kw) == 4:
+                order_ = ['nlayers', 'temperature_profile', 'pressure_profile', 'altitude_profile']
+                if all(k_ in sup_kw for k_ in order_[len(sup_args):]):
+                    sup_args = list(sup_args) + [sup_kw[k_] for k_ in order_[len(sup_args):]]
+                    sup_kw = {}
+            if sup_kw:
+                raise AnalysisError('the base-class call passes %s by keyword: not placed' % sorted(sup_kw))
         okv = okv and len(stack) == 1 and fl.tab.equal(atom_of(fl, stack[0].value).args[0], s.value) and \
             all(lic(x) or guard_is(fl, x, spec(fl, 'len(x) > 0', {'x': s.value}), True)
                 for x in stack[0].guards) and \
             len(sup) == 1 and all(lic(x) for x in sup[0].guards) and not sup[0].loops and \
             all(lic(x) for x in s.guards) and not s.loops and \
-            [fmt(fl, a) for a in sup[0].args] == [fmt(fl, pe[k]) for k in ('N', 'T', 'P', 'z')]
+            [fmt(fl, a) for a in sup_args] == [fmt(fl, pe[k]) for k in ('N', 'T', 'P', 'z')]
         R.check('3.store', 'EFF', site, 'the stacked profile (of the concatenated list) is stored before the base class, called '
                 'unconditionally with the same arguments, computes mu from it',
                 okv and sup and fl.events.index(vs[-1]) < fl.events.index(sup[0]),
@@ -324,6 +336,18 @@ def _run(ix, R):
             raise AnalysisError('expected two comprehensions')
         a, b = comps
         why = []
+        # a table read once into a local (`available = self.availableActive`) is that table
+        cnt_, defs_ = {}, {}
+        for n_ in ast.walk(f.node):
+            if isinstance(n_, ast.Name) and isinstance(n_.ctx, ast.Store):
+                cnt_[n_.id] = cnt_.get(n_.id, 0) + 1
+            if isinstance(n_, ast.Assign) and len(n_.targets) == 1 and isinstance(n_.targets[0], ast.Name):
+                defs_[n_.targets[0].id] = n_.value
+
+        def res_(x_):
+            if isinstance(x_, ast.Name) and cnt_.get(x_.id) == 1 and x_.id in defs_ and isinstance(defs_[x_.id], ast.Attribute):
+                return unparse(defs_[x_.id])
+            return unparse(x_)
         if unparse(a.elt) != unparse(b.elt) or unparse(a.generators[0].iter) != unparse(b.generators[0].iter) \
                 or unparse(a.generators[0].target) != unparse(b.generators[0].target):
             why.append('the two selections iterate different sequences')
@@ -337,7 +361,7 @@ def _run(ix, R):
             neg = {ast.In: ast.NotIn, ast.NotIn: ast.In}
             okc = isinstance(ta, ast.Compare) and isinstance(tb, ast.Compare) and \
                 unparse(ta.left) == unparse(tb.left) and \
-                unparse(ta.comparators[0]) == unparse(tb.comparators[0]) == 'self.availableActive' and \
+                res_(ta.comparators[0]) == res_(tb.comparators[0]) == 'self.availableActive' and \
                 type(tb.ops[0]) is neg.get(type(ta.ops[0])) and isinstance(ta.ops[0], ast.In)
             if not okc:
                 why.append('predicates %s / %s are not complementary membership tests on availableActive' % (
